@@ -36,6 +36,26 @@ CLAIMED = {
         note=("Trusted: family tagging oracle harness/families.py (isinstance/issubclass on resolved objects); snapshot probes; Coq kernel. Known finding D03 (bit-generator name "
               "resolved unaudited) is reported as KNOWN-FINDING. The tree-level theorems assume `leafy` (Json/Slice/Function nodes have only raw leaves), true of get_tree output."),
         ref="DESIGN.md section 4 C11"),
+    "C02": dict(
+        technique="Coq model purity (by construction) + observed inertness under audit hook with canary modules",
+        text=("The Gallina model of get_tree / the audit walk / walk_tree consists of total functions of (registry tables, member names, schema, T) whose result types carry no "
+              "event and which never call the model's name-resolution function; coq/props/C02.v records that (init_events = [] for every tree, after repairing D05). This part is "
+              "true by construction, so the assurance that the *code* is inert rests on the tie: on every run generated archives of every loader kind and protocol, whose name "
+              "slots mention fresh importable-but-not-imported canary modules, go through six inspection entry points of /repo under sys.addaudithook and wrapped "
+              "gettype/_import_obj/import_module, and the model's predicted verdicts/rows are compared with the implementation's."),
+        note=("Trusted: audit-hook and wrapper instrumentation, canary ledger; Coq kernel. zipfile opening the archive path itself is not an action on the archive's behalf. "
+              "A defect of this kind (LossNode importing while building, D05) was found and fixed in /repo."),
+        ref="DESIGN.md section 4 C02"),
+    "C15": dict(
+        technique="Coq proof over an executable model of _markup/_parser + model/implementation correspondence",
+        text=("Theorems (Coq, no axioms) over an executable model of _markup.py and _parser.py: every Markdown() call restores the indentation stack, so conversions are "
+              "deterministic and history independent; under the guard 'no repeated title under one parent' (finding D20) the parsed card has exactly one section per header, nested "
+              "under the nearest preceding lower-level header, title verbatim, content = the texts of the following blocks, each once, in order; render headings and TOC equal that "
+              "outline; totality for documents of individually convertible blocks; refuted witnesses for D20/D27/D28. Correspondence-only: that the model equals the implementation "
+              "(result class, toc, render, sections, select; ~430 generated documents and ~670 single conversions per quick run) and PrettyTable's table text."),
+        note=("Trusted: Coq kernel/vm_compute; generator and JSON-to-Coq translation in harness/props/c15.py; canonicaliser in harness/impl_parser.py; pretty_md models PrettyTable "
+              "only for single-width characters. Fixes D18/D19/D21 committed in /repo; D20/D27/D28 are open known findings."),
+        ref="DESIGN.md section 4 C15"),
 }
 
 PENDING_REASON = "check not built yet (see DESIGN.md section 8 build order); not claimed in this revision"
